@@ -21,7 +21,7 @@ type c13Obs struct {
 	lastGen    int32 // highest generation reported by a join reply in this incarnation of the group
 	haveGen    bool
 	failedOver bool
-	model      map[c13Key]int64 // topic/partition -> offset of the last commit answered 0
+	model      map[c13Key]int64  // topic/partition -> offset of the last commit answered 0
 	removedBy  map[string]string // member id -> "expiry" | "leave" (how it stopped being a member)
 
 	staleRejected, staleFormer, acceptedCurrent, staleFromExpired, staleCommits int
@@ -144,7 +144,7 @@ func TestVerifC13(t *testing.T) {
 	p.WSync = 14
 	p.WFailover = 2
 	p.WLeave = 6
-	n := r.N(600, 40000)
+	n := r.N(1200, 40000)
 	seen := func(w *gWorld, ev *gEvent) { r.Seen("group_states", w.stateSig(ev.After)) }
 	mk := func(w *gWorld) *c13Obs {
 		o := &c13Obs{r: r, model: map[c13Key]int64{}, removedBy: map[string]string{}}
